@@ -103,7 +103,8 @@ theorem remove_refines (img : Img) (hw : WF img) (hashC : CanonKey → Nat) (dig
     cases this
 
 /-- `remove_by_idx` of a key slot removes exactly the key stored there (all three cases incl.
-    promotion of a collision key); any other slot answers ENOENT and nothing changes -/
+    promotion of a collision key); any other slot answers ENOENT and nothing changes (an index outside
+    the table answers EINVAL: `C07.remove_by_idx_out_of_range`; `history_refines` covers every index) -/
 theorem remove_by_idx_refines (img : Img) (hw : WF img) (hashC : CanonKey → Nat) (hk : KeysOK hashC img)
     (i : Nat) (hi : i < img.n) :
     ((img.sl i).isKey = true →
